@@ -245,14 +245,18 @@ SPECS = {
         "assumptions": ["the grammar is read through -fno-access-control in the harness translation unit"],
     },
     "C09": {
-        "level_text": 'Generated (string set, overhead, cut size, thread count 2..8, schedule) cases: the HASHRPDACBlocks constructor runs under the deterministic scheduler, every synchronisation call being a scheduling point steered by the generated schedule (random or PCT-style priorities); its image must equal the single-thread image byte for byte, every ID must extract and the extracted strings must be the input set.',
+        "level_text": 'Generated (string set, overhead, cut size, thread count 2..8, schedule) cases: the HASHRPDACBlocks constructor runs under the deterministic scheduler, every synchronisation call being a scheduling point steered by the generated schedule (random or PCT-style priorities); its image must equal the single-thread image byte for byte, every ID must extract and the extracted strings must be the input set. Two further stages: (enum) all schedules with a bounded number of pre-emptions for 18 tiny configurations (2-4 one-string blocks, 1-3 threads), by depth-first search over the recorded choice points; (native) 50-6000 tiny blocks built with real threads under the OS scheduler in an ASan build, same oracle plus crash / sanitizer reports - this reaches unsynchronised accesses of the producer, which are atomic under a scheduler that pre-empts only at synchronisation calls.',
         "level_note": SCHED_NOTE, "technique": "schedule-generating property-based testing: deterministic scheduler (pthread interposition) + rapidcheck, differential against the single-thread build", "family": "sched",
         "engine": "rapidcheck bytes -> (case, schedule); sched/vsched.cpp owns the interleaving; each case in a forked child",
         "stages": (lambda tier: sched_stages("C09", 500, 700, floors={"blocks_ge2": 100, "blocks_ge4": 30, "threads_ge3": 100}, nontrivial_floor=100, thorough_mult=15)(tier)
+                   + [{"name": "enum", "binary": "sched_rc", "plan": [(s, 1, 10) for s in range(18)], "param": "enum:3:600000" if tier == "thorough" else "enum:2:12000",
+                       "label_floors": {"enum_complete": 4}, "nontrivial_floor": 10}]
                    + [{"name": "native", "binary": "native_rc", "plan": [(0, 30 * (10 if tier == "thorough" else 1), 60)] * 16,
                        "label_floors": {"blocks_ge1000": 20}, "nontrivial_floor": 100, "nondeterministic": True}]),
         "rule": "case = (S of 3..600 strings, overhead, cut, threads, schedule bytes); non-trivial = >=2 blocks and >=1 pre-emption of a "
-                "runnable thread at a synchronisation point; distinct = hash of the case bytes",
+                "runnable thread at a synchronisation point; distinct = hash of the case bytes. enum stage: case = configuration (2-4 one-string "
+                "blocks, 1-3 threads, overhead 25|0), every schedule with <=2 pre-emptions (cap 12 000; thorough 3 / 600 000), counter enum_schedules. "
+                "native stage: case = (50..6000 short strings, cut 1..48, 1..16 threads) built with real threads in an ASan build; non-trivial = >=50 blocks",
         "assumptions": ["a deadlock under a generated schedule is C10's event; for C09 the case is inconclusive",
                         "two single-thread builds must agree first (otherwise C08's matter, case inconclusive)"],
     },
